@@ -349,3 +349,27 @@ for _k, _coop, _st in itertools.product([1, 2, 3] + ([4, 6] if THOROUGH else [])
     register(SolutionBenchmarkId(_k, _coop, _st))
 for _v in VERSIONS:
     register(SolutionBenchmarkId(2, True, "cfg:P:2", _v))
+
+
+class SolutionBenchmarkIdConcrete(SolutionBenchmarkId):
+    """the same framing with concrete vehicle / cost ids, in particular EQUAL ids for several planning problems"""
+
+    def __init__(self, vids, cids, coop, structure):
+        self.vids_c, self.cids_c = list(vids), list(cids)
+        SolutionBenchmarkId.__init__(self, len(vids), coop, structure)
+        self.case = "vehicles %s, costs %s, %s, %s" % (",".join(vids), ",".join(cids), "C" if coop else "-", structure)
+
+    def build(self, F):
+        sidc = ScenarioIdRoundTrip(self.coop, "iso", self.structure, self.version)
+        sid = sidc.build(F)["sid"]
+        ppss = {}
+        for i, (v, c) in enumerate(zip(self.vids_c, self.cids_c)):
+            pid = (30, 10, 20, 5, 40, 15)[i]
+            ppss[pid] = _NativePPS(v, c, pid) if F.native else F.raw(PlanningProblemSolution, __vid__=v, __cid__=c, _planning_problem_id=pid)
+        sol = F.raw(Solution, scenario_id=sid, _planning_problem_solutions=ppss) if not F.native else _native_solution(sid, ppss)
+        return {"sol": sol, "sid": sid, "vids": self.vids_c, "cids": self.cids_c, "args": []}
+
+
+for _v, _c in ((("KS2", "KS3"), ("SM1", "SM1")), (("KS2", "KS2"), ("SM1", "JB1")), (("PM1", "PM1", "PM1"), ("JB1", "JB1", "JB1")), (("KST4", "MB1"), ("SA1", "SA1"))):
+    for _coop in (False, True):
+        register(SolutionBenchmarkIdConcrete(_v, _c, _coop, "cfg:T:int"))
